@@ -1,3 +1,4 @@
 /- C05: HCM stress-strain bookkeeping, point by point. -/
 import Model.HCMSpec
 import Proofs.C05Core
+import Proofs.C05Mirror
